@@ -87,7 +87,7 @@ func (h *Authorization) Unmarshal(v base.HeaderValue) error {
 
 		h.Username, h.BasicPass = tmp2[0], tmp2[1]
 	} else { // digest
-		kvs, err := keyValParse(v0, ',')
+		keys, kvs, err := keyValParseOrdered(v0, ',')
 		if err != nil {
 			return err
 		}
@@ -98,8 +98,8 @@ func (h *Authorization) Unmarshal(v base.HeaderValue) error {
 		uriReceived := false
 		responseReceived := false
 
-		for k, rv := range kvs {
-			v := rv
+		for _, k := range keys {
+			v := kvs[k]
 
 			switch k {
 			case "realm":
